@@ -49,6 +49,9 @@ ASSUMPTIONS = [
 ]
 
 ANY = 255
+# which reading of a recorded decision point the working tree implements (DESIGN §6): 0 = as shipped,
+# 1 = EDE text loses *every* trailing NUL on decoding (the proposed repair of C02/fixpoint/EDE-text-ends-with-NUL)
+VARIANT = 0
 OCT_LEN = [0, 0, 1, 1, 2, 3, 7, 8, 9, 16, 20, 31, 32, 33, 48, 63, 64, 127, 128, 254, 255]
 LETTERS = [0x61, 0x62, 0x41, 0x42, 0x63]
 OCTET_POOL = [0x00, 0x01, 0x20, 0x22, 0x2E, 0x30, 0x39, 0x40, 0x41, 0x5A, 0x5C, 0x61, 0x7A, 0x7F, 0x80, 0xC0, 0xFE, 0xFF]
@@ -585,17 +588,6 @@ def fix_tsig(rng, vals, env):
     return vals
 
 
-def fix_txt(rng, vals, env):
-    return vals
-
-
-def fix_eui(n):
-    def f(rng, vals, env):
-        return vals
-
-    return f
-
-
 # ---- custom types ---------------------------------------------------------------------------------
 class Custom:
     custom = True
@@ -865,33 +857,59 @@ class OPT(Custom):
     def gen(self, rng, env):
         return [self.gen_opt(rng, env) for _ in range(rng.choice([0, 1, 1, 2, 3, 5]))]
 
-    def raw_payload(self, rng, env, k):
+    def raw_payload(self, rng, env, k, defect):
+        """option body: valid but not necessarily canonical (unmasked ECS bits, NUL-terminated EDE text);
+        with `defect` one constraint is broken"""
         bad_utf8 = [b"\xff", b"\xc0\x80", b"\xed\xa0\x80", b"\xf4\x90\x80\x80", b"\xe2\x82", b"\xf0\x80\x80\x80", b"a\x80",
-                    b"\xc2", b"\xe0\x9f\xbf", b"\xef\xbf\xbf", b"\xf0\x90\x80\x80", b"\xf4\x8f\xbf\xbf", b"\xed\x9f\xbf", b"\xee\x80\x80"]
+                    b"\xc2", b"\xe0\x9f\xbf", b"\xf8\x88\x80\x80\x80", b"\xed\xbf\xbf", b"\xf0\x8f\xbf\xbf"]
+        edge_utf8 = [b"\xef\xbf\xbf", b"\xf0\x90\x80\x80", b"\xf4\x8f\xbf\xbf", b"\xed\x9f\xbf", b"\xee\x80\x80", b"\xe0\xa0\x80",
+                     b"\xc2\x80", b"\xdf\xbf", b"\x7f", b"\xe1\x80\x80", b"\xec\xbf\xbf", b"\xf1\x80\x80\x80", b"\xf3\xbf\xbf\xbf"]
+        good = [x.encode() for x in UTF8_POOL] + edge_utf8
         if k == 8:
-            fam = rng.choice([1, 1, 2, 2, 0, 3])
-            src = rng.choice([0, 1, 7, 8, 9, 24, 31, 32, 33, 56, 127, 128, 129, 255])
-            scope = rng.choice([0, 24, 32, 33, 128, 129, 255])
-            n = rng.choice([(src + 7) // 8, (src + 7) // 8, src // 8, (src + 7) // 8 + 1])
-            return fam.to_bytes(2, "big") + bytes([src, scope]) + rng.bytes(n)
+            fam = rng.choice([1, 2])
+            mx = 32 if fam == 1 else 128
+            src = rng.choice([0, 1, 4, 7, 8, 9, 20, 24, mx - 1, mx, rng.below(mx + 1)])
+            scope = rng.choice([0, mx, rng.below(mx + 1)])
+            n = (src + 7) // 8
+            if defect:
+                d = rng.below(5)
+                if d == 0:
+                    fam = rng.choice([0, 3, 65535])
+                elif d == 1:
+                    src = rng.choice([mx + 1, 255])
+                    n = min((src + 7) // 8, 4 if fam == 1 else 16)
+                elif d == 2:
+                    scope = rng.choice([mx + 1, 255])
+                elif d == 3:
+                    n = max(0, n - 1)
+                else:
+                    n += 1
+            return fam.to_bytes(2, "big") + bytes([src, scope]) + rng.bytes(n, [0xFF, 0xFF, 0x0F, 0xF0, 0x01, 0x80, 0xAA, 0x55])
         if k == 15:
-            txt = rng.choice([x.encode() for x in UTF8_POOL] + bad_utf8)
-            txt += rng.choice([b"", b"", b"\0", b"\0\0"])
-            return rng.choice([b"", b"\x00", u16.gen(rng, env).to_bytes(2, "big") + txt])
+            txt = rng.choice(good) + rng.choice([b"", b"", b"", b"\0"])
+            if defect:
+                return rng.choice([b"", b"\x00", b"\x00\x01" + rng.choice(bad_utf8), b"\x00\x01" + rng.choice(good) + b"\0\0"])
+            return u16.gen(rng, env).to_bytes(2, "big") + txt
         if k == 10:
-            return rng.bytes(rng.choice([0, 7, 8, 9, 15, 16, 24, 39, 40, 41]))
+            if defect:
+                return rng.bytes(rng.choice([0, 7, 9, 15, 41, 48]))
+            return rng.bytes(rng.choice([8, 16, 17, 24, 39, 40]))
         if k == 18:
-            return raw_name(dns.name.Name(g_labels(rng, True)), None) + rng.choice([b"", b"", b"", b"\0", b"x"])
+            return raw_name(dns.name.Name(g_labels(rng, True)), None) + (rng.choice([b"\0", b"x", b"\xc0\x00"]) if defect else b"")
         if k in (22, 23, 24, 25):
-            return rng.choice([x.encode() for x in UTF8_POOL] + bad_utf8)
+            return rng.choice(bad_utf8) if defect else rng.choice(good)
         return g_bytes(rng, 0, 40)
 
     def gen_raw(self, rng, env):
         out = b""
-        for _ in range(rng.choice([1, 1, 2, 3])):
-            k = rng.choice([8, 8, 15, 15, 3, 10, 10, 18, 22, 23, 24, 25, 0, 12])
-            pay = self.raw_payload(rng, env, k)
-            ln = rng.choice([len(pay)] * 6 + [len(pay) + 1, max(0, len(pay) - 1)])
+        n = rng.choice([1, 1, 2, 3])
+        bad_at = rng.below(n) if rng.chance(2, 5) else -1
+        for i in range(n):
+            k = rng.choice([8, 8, 8, 15, 15, 3, 10, 10, 18, 22, 23, 24, 25, 0, 12])
+            pay = self.raw_payload(rng, env, k, i == bad_at and rng.chance(3, 4))
+            ln = len(pay)
+            if i == bad_at and rng.chance(1, 4):
+                ln = rng.choice([len(pay) + 1, max(0, len(pay) - 1)])
             out += k.to_bytes(2, "big") + ln.to_bytes(2, "big") + pay
         return out
 
@@ -981,39 +999,66 @@ class SVCB(Custom):
             keys.add(1)
         return (prio, target, [(k, self.gen_param(rng, env, k, keys)) for k in sorted(keys)])
 
-    def raw_param(self, rng, env, k):
+    def raw_param(self, rng, env, k, keys, defect):
         if k == 0:
-            ks = [rng.choice([0, 1, 2, 3, 4, 7, 65535]) for _ in range(rng.choice([0, 1, 2, 3]))]
-            if rng.chance(2, 3):
-                ks = sorted(ks)
-            if rng.chance(1, 2):
-                ks = sorted(set(ks))
-            return b"".join(x.to_bytes(2, "big") for x in ks) + rng.choice([b"", b"", b"", b"\0"])
+            ks = sorted(set(x for x in keys if x != 0 and rng.chance(1, 2)))
+            if defect:
+                d = rng.below(4)
+                if d == 0:
+                    ks = ks + [rng.choice([9, 11, 65534])]  # listed but absent
+                elif d == 1:
+                    ks = [0] + ks
+                elif d == 2 and ks:
+                    ks = ks + [ks[-1]]
+                elif ks and len(ks) >= 2:
+                    ks = ks[::-1]
+                else:
+                    return b"\0"
+            return b"".join(x.to_bytes(2, "big") for x in ks)
         if k in (1, 10):
-            ids = [g_bytes(rng, rng.choice([0, 1, 1, 1]), 20) for _ in range(rng.choice([0, 1, 2]))]
-            return b"".join(bytes([len(x)]) + x for x in ids) + rng.choice([b"", b"", b"", b"\x05ab"])
+            ids = [g_bytes(rng, 1, 20) for _ in range(rng.choice([0, 1, 2, 3]))]
+            if defect:
+                return b"".join(bytes([len(x)]) + x for x in ids) + rng.choice([b"\0", b"\x05ab", b"\xff"])
+            return b"".join(bytes([len(x)]) + x for x in ids)
         if k in (2, 8):
-            return rng.choice([b"", b"", b"\0", b"x"])
+            return rng.choice([b"\0", b"x"]) if defect else b""
         if k == 3:
-            return rng.bytes(rng.choice([2, 2, 2, 1, 3, 0]))
+            return rng.bytes(rng.choice([1, 3, 0])) if defect else rng.bytes(2)
         if k == 4:
-            return rng.bytes(rng.choice([0, 4, 8, 3, 5]))
+            return rng.bytes(rng.choice([3, 5, 7])) if defect else rng.bytes(rng.choice([0, 4, 8]))
         if k == 6:
-            return rng.bytes(rng.choice([0, 16, 32, 15, 17]))
+            return rng.bytes(rng.choice([15, 17, 1])) if defect else rng.bytes(rng.choice([0, 16, 32]))
         return g_bytes(rng, 0, 30)
 
     def gen_raw(self, rng, env):
-        prio = rng.choice([0, 0, 1, 1, 1, 65535])
-        n = rng.choice([0, 1, 2, 3, 4])
-        if prio == 0 and rng.chance(2, 3):
-            n = 0
-        keys = [rng.choice([0, 0, 0, 1, 1, 2, 3, 4, 5, 6, 7, 8, 10, 65535]) for _ in range(n)]
-        if rng.chance(4, 5):
+        prio = rng.choice([1, 1, 1, 16, 65535])
+        n = rng.choice([0, 1, 2, 3, 4, 6])
+        keys = sorted(rng.choice([0, 0, 1, 1, 2, 3, 4, 5, 6, 7, 8, 10, 65535]) for _ in range(n))
+        if 2 in keys and 1 not in keys:
+            keys = sorted(keys + [1])
+        # duplicates are legal on the wire (the last one wins)
+        defect = rng.chance(2, 5)
+        d = rng.below(8) if defect else -1
+        if d >= 6:
+            keys = sorted(set(keys) | {0})
+        if d == 0:
+            prio = 0 if keys else 1
+        elif d == 1 and len(keys) >= 2:
+            keys = keys[::-1] if keys[0] != keys[-1] else keys
+        elif d == 2:
+            keys = [k for k in keys if k != 1] + ([2] if 2 not in keys else [])
             keys = sorted(keys)
+        elif rng.chance(1, 8):
+            prio, keys = 0, []
+        bad_at = rng.below(len(keys)) if (d >= 3 and keys) else -1
+        if d >= 6:
+            bad_at = 0
         out = prio.to_bytes(2, "big") + raw_name(g_name(rng, env), env["origin"])
-        for k in keys:
-            pay = self.raw_param(rng, env, k)
-            ln = rng.choice([len(pay)] * 8 + [len(pay) + 1, max(0, len(pay) - 1)])
+        for i, k in enumerate(keys):
+            pay = self.raw_param(rng, env, k, keys, i == bad_at and d in (3, 4, 6, 7))
+            ln = len(pay)
+            if i == bad_at and d == 5:
+                ln = rng.choice([len(pay) + 1, max(0, len(pay) - 1)])
             out += k.to_bytes(2, "big") + ln.to_bytes(2, "big") + pay
         return out
 
@@ -1130,8 +1175,28 @@ SPECS = {
 GENERIC = Spec([("data", rest)])
 
 # per-type proof status reported in the evidence (see lean/Props/C02.lean)
-CUSTOM_STATUS = {(ANY, 29): "modelled", (ANY, 41): "modelled", (1, 42): "modelled", (1, 64): "modelled", (1, 65): "modelled"}
+CUSTOM_STATUS = {
+    (ANY, 29): "proved (object-level view: loc_fixpoint; round trip for canonical sizes/coordinates)",
+    (ANY, 41): "modelled (round trip proved for canonical option values; fixed-point clause refuted at a witness = known finding; tie + oracle)",
+    (1, 42): "proved (apl_fixpoint: the encoding is a fixed point; stored address modulo trailing zero octets)",
+    (1, 64): "proved (svcb_fixpoint)",
+    (1, 65): "proved (svcb_fixpoint)",
+}
 NO_REL_DECODE = {(ANY, 250)}  # TSIG: get_name() without origin
+
+
+def probe_variant():
+    """replay the witness of the recorded defect to learn which variant the code implements"""
+    global VARIANT
+    VARIANT = 0
+    try:
+        b = bytes.fromhex("000f00050003610000")
+        rd = dns.rdata.from_wire(4096, 41, b, 0, len(b))
+        if rd.options[0].text == "a":
+            VARIANT = 1
+    except Exception:  # noqa: BLE001
+        pass
+    return VARIANT
 
 
 def implemented():
@@ -1147,13 +1212,6 @@ def spec_for(c, t):
     if (ANY, t) in SPECS:
         return (ANY, t), SPECS[(ANY, t)]
     return None, GENERIC
-
-
-def wire_class(key, c, rng):
-    """a concrete class number for a table key"""
-    if key is not None and key[0] != ANY:
-        return key[0]
-    return c
 
 
 # ------------------------------------------------------------------------------------------------
@@ -1206,7 +1264,7 @@ def eval_case(ctx: Ctx, case: dict):
                 ctx.fail(f"C02/to_wire/raises/{sigt}", f"to_wire raised {type(e).__name__} on an accepted value of {tname}: {case['tree']}", rep)
         ctx.count("val." + impl.split(" ")[0])
         if not (spec.custom and impl == "invalid"):
-            ctx.corr(f"c02.enc {c} {t} {enc_origin(case.get('origin'))} {case['tree']}", impl, case)
+            ctx.corr(f"c02.enc {VARIANT} {c} {t} {enc_origin(case.get('origin'))} {case['tree']}", impl, case)
         if rd is None or w is None:
             return
         if len(w) > 65535:
@@ -1255,7 +1313,7 @@ def eval_case(ctx: Ctx, case: dict):
         else:
             ctx.count("val.abs-below-origin")
         # the decoding of the encoding, against the model
-        ctx.corr(f"c02.dec {c} {t} {enc_origin(case.get('origin'))} - {hx(w)}", "ok " + dump(spec.tree(rd2)), case)
+        ctx.corr(f"c02.dec {VARIANT} {c} {t} {enc_origin(case.get('origin'))} - {hx(w)}", "ok " + dump(spec.tree(rd2)), case)
     elif k == "wire":
         pfx, rdata, post = bytes.fromhex(case["pfx"]), bytes.fromhex(case["rdata"]), bytes.fromhex(case["post"])
         buf = pfx + rdata + post
@@ -1283,13 +1341,13 @@ def eval_case(ctx: Ctx, case: dict):
         elif rd is not None and rdp is not None and not (rdp == rd):
             ctx.fail(f"C02/from_wire/differs-from-restricted-parser/{sigt}", f"{tname} {rdata.hex()}: different records", rep)
         ctx.count("wire." + impl.split(" ")[0])
-        if rd is not None:
+        if rd is not None and modelled:
             try:
                 impl = "ok " + dump(spec.tree(rd))
             except TypeError as e:
                 impl = "ok ?" + str(e)
         if modelled:
-            ctx.corr(f"c02.dec {c} {t} {enc_origin(case.get('origin'))} {hx(pfx)} {hx(rdata)}", impl, case)
+            ctx.corr(f"c02.dec {VARIANT} {c} {t} {enc_origin(case.get('origin'))} {hx(pfx)} {hx(rdata)}", impl, case)
         if rd is None:
             return
         # ---- direct oracle on an accepted octet string
@@ -1511,6 +1569,7 @@ def generate(ctx: Ctx, scale, rng):
 
 
 def run(ctx: Ctx):
+    ctx.extra["variant_ede_strip_all_nul"] = probe_variant()
     for p in sorted(glob.glob(os.path.join(VERIF, "corpus", "C02", "*.json"))):
         c = json.load(open(p))
         ctx.case(("corpus", p), sample=None)
@@ -1520,6 +1579,7 @@ def run(ctx: Ctx):
 
 
 def search(ctx: Ctx):
+    probe_variant()
     for m in ctx.mismatches[:50]:
         if m.case is not None:
             eval_case(ctx, m.case)
@@ -1527,13 +1587,16 @@ def search(ctx: Ctx):
 
 
 def replay(ctx: Ctx, obj: dict):
+    probe_variant()
     eval_case(ctx, obj["case"])
     return [f.what for f in ctx.failures]
 
 
 def impl_of_op(op: str):
     """re-run one recorded protocol line against the implementation (for --replay of a correspondence break)"""
+    probe_variant()
     toks = op.split()
+    del toks[1]  # the variant token
     if toks[0] == "c02.dec":
         c, t, o, p, r = int(toks[1]), int(toks[2]), toks[3], toks[4], toks[5]
         case = {"kind": "wire", "cls": c, "typ": t, "origin": None if o == "none" else [("" if x == "-" else x) for x in o.split(",")],
@@ -1546,14 +1609,14 @@ def impl_of_op(op: str):
     ctx.driver_ok = False
     eval_case(ctx, case)
     for q in ctx.queue:
-        if q[0] == op:
+        if q[0].split()[0] == op.split()[0] and q[0].split()[2:] == op.split()[2:]:
             return q[1]
     return "?"
 
 
 LEVEL = {
     "text": "Lean 4 theorems over a schema language for RDATA codecs (executable model of dns/wirebase.Parser and of every dns/rdtypes/** to_wire/from_wire_parser pair incl. the constructors' validation): generic enc_dec and dec_fixpoint proved by induction on schemas, well-formedness of every table entry by decide, coverage of the implemented (class,type) list regenerated from the code. Tied to the code by a two-direction correspondence check on every implemented type plus a direct round-trip / fixed-point / exact-consumption oracle on all types and unknown type codes.",
-    "note": "Trusted: Lean kernel + propext/Classical.choice/Quot.sound; statements in lean/Props/C02.lean; the correspondence harness and its generators; harness/extract_C02.py. Types with object-level post/pre maps (LOC, APL, OPT, SVCB, HTTPS) are modelled and tied, their entry-level lemmas are reported per type in the evidence (per_type_status).",
+    "note": "Trusted: Lean kernel + propext/Classical.choice/Quot.sound; statements in lean/Props/C02.lean; the correspondence harness and its generators; harness/extract_C02.py. 64 of 69 types are plain schemas covered by the generic theorems; LOC, APL, SVCB, HTTPS have an object-level view with their own fixed-point theorems; OPT (EDNS options) is modelled and tied, its round trip is proved for canonical option values and its fixed-point clause is refuted at a witness (recorded finding: EDE text ending in NUL). Per-type status is in the evidence (per_type_status).",
     "technique": "Lean 4 proof (induction over a deep-embedded schema language, finite table by decide) + model-vs-implementation correspondence",
     "design_ref": "DESIGN.md §7 C02",
 }
